@@ -227,7 +227,7 @@ def gen(rng, focus="general"):
         o["maxfev"] = 150
     if rng.random() < (0.4 if focus in ("C05", "budget") else 0.15):
         o["maxiter"] = int(rng.integers(1, 12))
-    if rng.random() < (0.5 if focus in ("C09", "target") else 0.2) and desc["fun"] is not None:
+    if rng.random() < (0.5 if focus in ("C09", "C07", "target") else 0.2) and desc["fun"] is not None:
         o["target"] = r(rng.uniform(-1, 8))
     if rng.random() < 0.3:
         o["scale"] = True
@@ -243,10 +243,13 @@ def gen(rng, focus="general"):
         o["radius_final"] = r(min(o.get("radius_init", 1.0), 10 ** rng.uniform(-8, -2)))
     if rng.random() < 0.1:
         o["feasibility_tol"] = r(10 ** rng.uniform(-10, -2))
+    if rng.random() < (0.3 if focus == "C06" else 0.12):
+        o["disp"] = True
     desc["options"] = o
     # callback
     if rng.random() < (0.7 if focus in ("C20", "C09", "callback") else 0.35):
-        desc["callback_kind"] = ["xk", "ir", "lambda", "object", "partial"][int(rng.integers(5))]
+        kinds = ["xk", "ir", "ir_kwonly", "lambda", "ir_lambda", "object", "object_xk", "ir_method", "method_xk", "partial", "ir_partial"]
+        desc["callback_kind"] = kinds[int(rng.integers(len(kinds)))]
         if rng.random() < (0.5 if focus in ("C20", "C09", "callback") else 0.25):
             desc["stop_at"] = int(rng.integers(1, 30))
         if rng.random() < 0.3:
